@@ -351,6 +351,10 @@ PLAN = {
               # always: function-entry points inside the vendored lexer / parser / models / generator (state shared through a CLASS
               # attribute or a module global leaves no shared instance behind and restores itself, so nothing would trigger the escalation)
               ("H1t", "call", "deep", 1, None), ("H4t", "call", "deep", 1, None),
+              # always as well: every single preemption between two LINES of the vendored lexer / parser / models / generator on tiny
+              # texts - a check-then-act on a thread-safe module-level container (a pool of spare tokens: empty() then get_nowait())
+              # has no function entry between the two steps and leaves no shared instance behind
+              ("H1t", "line", "deep", 1, None), ("H4t", "line", "deep", 1, None),
               # every single preemption between two BYTECODES of the evaluator / wrapper / binning modules (two stores written on one line)
               ("H7a", "attr", "core", 99, None), ("H7b", "attr", "core", 99, None), ("H7c", "attr", "core", 99, None), ("H7a", "line", "core", 1, None),
               # two deeply nested sources (deeper than anything compiled before) at every line of the code generator and of the models
@@ -466,7 +470,7 @@ def plan_units(res, entry):
     return units
 
 
-ESCALATION = {"quick": [("H1t", "line", "deep", 1, None), ("H4t", "line", "deep", 1, None)],
+ESCALATION = {"quick": [("H1t", "line", "deep", 2, 40)],
               "thorough": [("H4t", "line", "deep", 1, None), ("H12", "line", "deep", 1, None), ("H1t", "line", "deep", 2, 40)]}
 
 
